@@ -7,3 +7,4 @@ import Juniper.Props.C10Chan
 import Juniper.Props.C12
 import Juniper.Props.C05
 import Juniper.Props.C15Heap
+import Juniper.Props.C06
